@@ -87,9 +87,9 @@ def main(argv):
                 metas.append((case, real))
     # histories on ONE FallbackClient object: the caches change state between the calls ("for every state of the underlying caches");
     # every read of the history is judged like a single read, and consults the model for that state
-    def judge(fc, log, kinds, op, hist):
+    def judge(fc, log, kinds, op, hist, coll=list):
         del log[:]
-        arg = "k" if op in ("get", "gets") else ["k", "j"]
+        arg = "k" if op in ("get", "gets") else coll(["k", "j"])
         res = getattr(fc, op)(arg)
         multi = op.endswith("many")
         hit = (lambda k: k == HIT) if multi else (lambda k: k != NONE)
@@ -111,6 +111,16 @@ def main(argv):
         metas.append((case, f"ok result=FALLTHROUGH consulted={len(log)}" if first is None else
                       f"ok result={kinds[first] if kinds[first] != HIT else 'H' + str(first)} consulted={len(log)}"))
         return True
+    # the keys of a multi-key read may be any iterable of keys (tuple, set, frozenset, dict view), not only a list
+    for n in (1, 2, 3):
+        for kinds in itertools.product([NONE, EMPTY, HIT], repeat=n):
+            for op in ("get_many", "gets_many"):
+                for cname, coll in (("tuple", tuple), ("set", set), ("frozenset", frozenset), ("dict-keys", lambda ks: dict.fromkeys(ks).keys())):
+                    log = []
+                    fc = FallbackClient([Cache(i, k, log) for i, k in enumerate(kinds)])
+                    ctx.case(("coll", n, kinds, op, cname))
+                    ctx.count("key-collection-types")
+                    judge(fc, log, kinds, op, [op + "(" + cname + ")"], coll=coll)
     READS = ("get", "gets", "get_many", "gets_many")
     for n in (2, 3):
         states = list(itertools.product([NONE, EMPTY, HIT], repeat=n))
@@ -197,5 +207,29 @@ def main(argv):
                         # (what the call returns is not part of the property: the unchanged FallbackClient returns None from its writes)
     finally:
         Cache.write_answer = "tuple"
+    # a read answered by a fallback cache, then every mutating operation on the SAME object: still the first cache only
+    for n in (2, 3, 4):
+        for pos in range(1, n):
+            for rop in ("gets", "gets_many", "get", "get_many"):
+                for wop, params in WRITES.items():
+                    log = []
+                    kinds = [NONE] * n
+                    kinds[pos] = HIT
+                    fc = FallbackClient([Cache(i, k, log) for i, k in enumerate(kinds)])
+                    getattr(fc, rop)("k" if rop in ("get", "gets") else ["k", "j"])
+                    del log[:]
+                    vals = {p_: ("arg", p_) for p_ in params}
+                    if "key" in params:
+                        vals["key"] = "k"
+                    try:
+                        getattr(fc, wop)(**vals)
+                    except Exception as e:
+                        ctx.violation("a mutating operation raised after a read", {"read": rop, "answered_by_cache": pos, "write": wop, "error": repr(e)[:80]}, tags=["history"])
+                        continue
+                    ctx.case(("read-then-write", n, pos, rop, wop))
+                    ctx.count("read-then-write-histories")
+                    if [e[0] for e in log] != [0] or log[0][1] != wop:
+                        ctx.violation("after a read that a fallback cache answered, a mutating operation was not applied to exactly the first cache",
+                                      {"caches": n, "read": rop, "answered_by_cache": pos, "write": wop, "log": repr(log)[:200]}, tags=["history"])
     ctx.assumptions = ["caches are scripted objects; only the call log is observed"]
     ctx.finish()
